@@ -589,7 +589,42 @@ func c14GenAnno(t *rapid.T, direct bool) (bool, []c14P) {
 	}
 }
 
-func c14GenCall(t *rapid.T, pool []c14Node, direct bool) c14Call {
+// c14Wide: a condition head shared by several conditions of one case (same input,
+// same negation, the same first five values) that continue with different further
+// alternatives — conditions that agree on a long prefix must still be evaluated
+// on all their values, in every line and every group built from one DialerSet.
+type c14Wide struct {
+	Input  string
+	Not    bool
+	Prefix []c14P
+}
+
+func c14GenWide(t *rapid.T, pool []c14Node) *c14Wide {
+	w := &c14Wide{Input: rapid.SampledFrom([]string{"name", "name", "subtag"}).Draw(t, "winput"), Not: rapid.IntRange(0, 2).Draw(t, "wnot") == 0}
+	n := rapid.SampledFrom([]int{5, 5, 5, 6, 7}).Draw(t, "wprefix")
+	for i := 0; i < n; i++ {
+		if rapid.IntRange(0, 9).Draw(t, "wmiss") < 7 {
+			// a value no node has, so the differing tails decide
+			w.Prefix = append(w.Prefix, rapid.SampledFrom([]c14P{{"", "no-such-" + strconv.Itoa(i)}, {"regex", "^never" + strconv.Itoa(i) + "$"}, {"", "zz" + strconv.Itoa(i)}}).Draw(t, "wmissval"))
+		} else {
+			w.Prefix = append(w.Prefix, c14GenParam(t, w.Input, pool))
+		}
+	}
+	return w
+}
+
+func c14GenCall(t *rapid.T, pool []c14Node, direct bool, wide ...*c14Wide) c14Call {
+	if len(wide) > 0 && wide[0] != nil && rapid.IntRange(0, 9).Draw(t, "usewide") < 6 {
+		w := wide[0]
+		c := c14Call{Input: w.Input, Not: w.Not, Params: append([]c14P{}, w.Prefix...)}
+		if rapid.IntRange(0, 7).Draw(t, "wflipnot") == 0 {
+			c.Not = !c.Not
+		}
+		for i, n := 0, rapid.IntRange(0, 4).Draw(t, "wtail"); i < n; i++ {
+			c.Params = append(c.Params, c14GenParam(t, w.Input, pool))
+		}
+		return c
+	}
 	c := c14Call{Input: rapid.SampledFrom([]string{"name", "name", "name", "subtag", "subtag"}).Draw(t, "input"),
 		Not: rapid.IntRange(0, 2).Draw(t, "not") == 0}
 	np := rapid.SampledFrom([]int{1, 1, 1, 2, 2, 3, 4}).Draw(t, "nparams")
@@ -604,7 +639,7 @@ func c14GenCall(t *rapid.T, pool []c14Node, direct bool) c14Call {
 
 // c14GenDef: a valid definition, then (sometimes) 1-2 invalid elements injected at
 // rapid-chosen positions. direct=false restricts to what the text grammar can say.
-func c14GenDef(t *rapid.T, pool []c14Node, direct bool) (def c14Def, injected []string) {
+func c14GenDef(t *rapid.T, pool []c14Node, direct bool, wide ...*c14Wide) (def c14Def, injected []string) {
 	nl := rapid.SampledFrom([]int{1, 2, 1, 2, 3, 1, 2, 3, 4, 0}).Draw(t, "nlines")
 	for i := 0; i < nl; i++ {
 		var l c14Line
@@ -613,7 +648,7 @@ func c14GenDef(t *rapid.T, pool []c14Node, direct bool) (def c14Def, injected []
 			nc = 0
 		}
 		for j := 0; j < nc; j++ {
-			l.Calls = append(l.Calls, c14GenCall(t, pool, direct))
+			l.Calls = append(l.Calls, c14GenCall(t, pool, direct, wide...))
 		}
 		l.HasAnno, l.Anno = c14GenAnno(t, direct)
 		def.Lines = append(def.Lines, l)
